@@ -358,6 +358,8 @@ type Terminal struct {
 	triggerLoad        bool
 	reading            bool
 	running            *util.AtomicBool
+	started            bool
+	heldEvents         []tui.Event
 	failed             *string
 	jumping            jumpMode
 	jumpLabels         string
@@ -1630,6 +1632,20 @@ func (t *Terminal) UpdateList(merger *Merger) {
 	}
 	if t.hasResultActions {
 		events = append(events, tui.Result.AsEvent())
+	}
+	if !t.started {
+		// The start is deferred (--select-1, --exit-0, adaptive height): nothing
+		// reads the channel yet, and it must not fill up. Keep one of each.
+		for _, event := range events {
+			held := false
+			for _, e := range t.heldEvents {
+				held = held || e == event
+			}
+			if !held {
+				t.heldEvents = append(t.heldEvents, event)
+			}
+		}
+		events = nil
 	}
 	t.mutex.Unlock()
 	for _, event := range events {
@@ -4432,6 +4448,15 @@ func (t *Terminal) addClickHeaderWord(env []string) []string {
 func (t *Terminal) Loop() error {
 	// prof := profile.Start(profile.ProfilePath("/tmp/"))
 	fitpad := <-t.startChan
+	// Events that were held back while nobody was there to take them
+	t.mutex.Lock()
+	t.started = true
+	heldEvents := t.heldEvents
+	t.heldEvents = nil
+	t.mutex.Unlock()
+	for _, event := range heldEvents {
+		t.eventChan <- event
+	}
 	fit := fitpad.fit
 	if fit >= 0 {
 		pad := fitpad.pad
